@@ -1111,7 +1111,8 @@ def _jobs():
         for i in range(rng.randint(1, 4)):
             jobs.append({"interval": rng.choice([0.0, tick, round(tick * 2.5, 6), lat(rng, zero_p=0.0, hi=0.5)]),
                          "prio": rng.randint(0, 2), "deps": [j for j in range(i) if rng.random() < 0.4],
-                         "svc": svc_times(rng, n=3)})
+                         # a job that finishes in zero simulated time (every run), or a mix of durations
+                         "svc": [0.0] if rng.random() < 0.35 else svc_times(rng, n=3)})
         return {"tick": tick, "jobs": jobs, "horizon": round(tick * rng.randint(5, 30), 6), "tags": []}
 
     def build(z, c):
